@@ -13,6 +13,7 @@ import time
 import traceback
 
 from . import env  # noqa: F401  (shims first)
+from . import common
 from .common import (Stats, Violation, cell_seed, load_known, dump_case,
                      RUN_DIR, write_replay)
 
@@ -201,6 +202,7 @@ def main():
         if not line:
             continue
         cell = json.loads(line)
+        common.CURRENT.update({"prop": prop, "cell": cell})
         try:
             if cell.get("fuzz"):
                 res = run_fuzz(prop, cell, seed)
